@@ -10,8 +10,8 @@ RULE = ("one case = (method (uniform or adaptive grid), direction, dense flag, w
         "bit-equal sol(t), otherwise a nearest recorded sample, whole-run time slices in either direction; non-trivial = >=5 recorded rows; distinct by "
         "(method, direction, dense, continuation, seed)")
 ASSUMPTIONS = ["nearest: |t_ret - q| <= min_k |t_k - q| * (1 + 64 eps) + 4 ulp (ties may go either way)"]
-FLOORS = {"quick": {"systems": 60, "index_lookups": 1500, "time_lookups_nodense": 2000, "time_lookups_dense": 800, "backward_systems": 20, "slices": 100, "iterations": 60, "early_sequence_checks": 120, "array_lookups": 15},
-          "thorough": {"systems": 600, "index_lookups": 15000, "time_lookups_nodense": 20000, "time_lookups_dense": 8000, "backward_systems": 200, "slices": 1000, "iterations": 600, "early_sequence_checks": 1200, "array_lookups": 150}}
+FLOORS = {"quick": {"systems": 60, "index_lookups": 1500, "time_lookups_nodense": 2000, "time_lookups_dense": 800, "backward_systems": 20, "slices": 100, "iterations": 60, "early_sequence_checks": 120, "array_lookups": 15, "systems_with_grid_spacing_below_sqrt_eps": 8},
+          "thorough": {"systems": 600, "index_lookups": 15000, "time_lookups_nodense": 20000, "time_lookups_dense": 8000, "backward_systems": 200, "slices": 1000, "iterations": 600, "early_sequence_checks": 1200, "array_lookups": 150, "systems_with_grid_spacing_below_sqrt_eps": 80}}
 METHODS = ["RK4Solver", "RK45CKSolver", "DOPRI45", "EulerSolver", "RK8713MSolver", "ABAs5o6HSolver", "RadauIIA5", "HeunEulerSolver"]
 
 
@@ -20,7 +20,8 @@ def gen_cases(tier, seed):
     cases = []
     for i in range(80 if tier == "quick" else 800):
         cases.append(dict(method=METHODS[int(rng.integers(len(METHODS)))], direction=int(rng.choice([-1, 1])), dense=bool(rng.random() < 0.35),
-                          cont=bool(rng.random() < 0.4), nsteps=float(rng.uniform(6, 40)), t0=float(rng.uniform(-5, 5)), pseed=int(rng.integers(1 << 30)), cost=2))
+                          cont=bool(rng.random() < 0.4), nsteps=float(rng.uniform(6, 40)), t0=float(rng.uniform(-5, 5)), pseed=int(rng.integers(1 << 30)), cost=2,
+                          tscale=float(rng.choice([1.0, 1.0, 1.0, 1e-9, 1e-7, 1e-4, 1e3]))))
     return cases
 
 
@@ -30,10 +31,20 @@ def run_case(spec):
     d = spec["direction"]
     prob = Manufactured(2, spec["pseed"], direction=d)
     rng = rng_for(1902, spec["pseed"])
-    t0 = spec["t0"]
-    L = float(rng.uniform(1.0, 4.0))
+    # the time axis is measured in units of `ts` (nanosecond-scale grids have spacings far below sqrt(eps), kilo-scale ones far above 1)
+    ts = float(spec.get("tscale", 1.0))
+    if not info["explicit"] and ts < 1:
+        # implicit methods solve for stage SLOPES to an absolute tolerance; with slopes of size 1/ts that tolerance is unattainable and the
+        # run ends with FailedToMeetTolerances (an honest failure - C05's subject, not a look-up question)
+        ts = 1.0
+    t0 = spec["t0"] * ts
+    L1 = float(rng.uniform(1.0, 4.0))
+    L = L1 * ts
     tf = t0 + d * L
-    system = sysrun.make_system(prob.rhs, prob.ystar(t0).astype(np.float64), t0, tf, L / spec["nsteps"], info["cls"], dense=spec["dense"], rtol=1e-5, atol=1e-7)
+
+    def rhs_scaled(t, y, **kw):
+        return prob.rhs(t / ts, y) / ts
+    system = sysrun.make_system(rhs_scaled, prob.ystar(spec["t0"]).astype(np.float64), t0, tf, L / spec["nsteps"], info["cls"], dense=spec["dense"], rtol=1e-5, atol=1e-7)
     early = []     # observations taken on the freshly constructed system and from inside a step callback (storage not yet trimmed)
 
     def seq_check(sysm, where):
@@ -72,7 +83,10 @@ def run_case(spec):
         system.integrate(t0 + 0.45 * (tf - t0), callback=cb)
     system.integrate(callback=cb)
     rec = util.Rec(sig="%s|%d|%s|%s|%d" % (spec["method"], d, spec["dense"], spec["cont"], spec["pseed"] % 211))
-    feats = {"method": spec["method"], "direction": d, "dense": spec["dense"], "continued": spec["cont"], "grid": "adaptive" if info["adaptive"] else "uniform"}
+    feats = {"method": spec["method"], "direction": d, "dense": spec["dense"], "continued": spec["cont"], "grid": "adaptive" if info["adaptive"] else "uniform",
+             "time_scale": "unit" if ts == 1.0 else ("small" if ts < 1 else "large")}
+    if ts < 1e-6:
+        rec.bump("systems_with_grid_spacing_below_sqrt_eps")
     t = np.array(system.t, copy=True)
     y = np.array(system.y, copy=True)
     n = len(t)
@@ -116,9 +130,14 @@ def run_case(spec):
         rec.violate("iteration", "iteration_raised", feats, err=repr(e)[:200])
     # ---- time look-ups
     lo, hi = float(np.min(t)), float(np.max(t))
-    qs = np.concatenate([rng.uniform(lo, hi, 30), t[rng.integers(0, n, 6)], 0.5 * (t[:-1] + t[1:])[:6], [lo - 0.3 * L, hi + 0.3 * L, lo - 1e-9, hi + 1e-9]])
+    qs = np.concatenate([rng.uniform(lo, hi, 30), t[rng.integers(0, n, 6)], 0.5 * (t[:-1] + t[1:])[:6], [lo - 0.3 * L, hi + 0.3 * L, lo - 1e-9 * L, hi + 1e-9 * L]])
     eps = 2.3e-16
     nbad = 0
+    if spec["dense"]:
+        node = max(float(np.max(np.abs(y[k].astype(np.longdouble) - prob.ystar(float(t[k]) / ts)))) for k in range(n))
+        hmax = float(np.max(np.abs(np.diff(t)))) / ts if n > 1 else 0.0
+        dyb = node + hmax ** 4 * prob.d4ystar_max() / 384.0 + 64 * eps * (1 + float(np.max(np.abs(y))))
+        acc_bound = 8 * dyb * (1 + prob.lipschitz() * hmax) + 1e-12
     for q in qs:
         q = float(q)
         try:
@@ -132,6 +151,12 @@ def run_case(spec):
                 v = system.sol(q)
                 if not np.array_equal(np.asarray(got.y), np.asarray(v)):
                     rec.violate("time_lookup_dense", "time_lookup_differs_from_dense_solution", feats, q=q)
+                # ... and that is the solution there, to what a cubic Hermite piece between accurate nodes allows
+                e_ = float(np.max(np.abs(np.asarray(got.y, dtype=np.longdouble) - prob.ystar(q / ts))))
+                rec.worst("dense_lookup_error_over_bound", e_ / acc_bound)
+                if e_ > acc_bound and nbad == 0:
+                    nbad += 1
+                    rec.violate("time_lookup_dense", "time_lookup_with_dense_output_is_not_the_solution_at_that_time", feats, q=q, err=e_, bound=acc_bound)
         else:
             rec.bump("time_lookups_nodense")
             dmin = float(np.min(np.abs(t - q)))
